@@ -608,8 +608,14 @@ DISPENSO_INLINE bool ThreadPool::shouldRunInline() {
   ssize_t curWork = workRemaining_.load(std::memory_order_relaxed);
   ssize_t quickLoadFactor = numThreads_.load(std::memory_order_relaxed);
   quickLoadFactor += quickLoadFactor / 2;
-  return (detail::PerPoolPerThreadInfo::isPoolRecursive(this) && curWork > quickLoadFactor) ||
+  bool overloaded =
+      (detail::PerPoolPerThreadInfo::isPoolRecursive(this) && curWork > quickLoadFactor) ||
       (curWork > poolLoadFactor_.load(std::memory_order_relaxed));
+  // Inline execution nests the functor on the caller's stack.  A functor that itself schedules
+  // (a then-chain link, a task scheduling its successor) would recurse once per task while the
+  // pool stays overloaded, so inline runs are capped at kMaxInlineDepth like every other inline
+  // path in dispenso; beyond that the work is queued.
+  return overloaded && detail::PerPoolPerThreadInfo::canInlineSchedule();
 }
 
 template <bool kPlaced, typename F>
@@ -631,6 +637,7 @@ template <typename F>
 DISPENSO_REQUIRES(OnceCallableFunc<F>)
 inline void ThreadPool::schedule(F&& f) {
   if (shouldRunInline()) {
+    detail::InlineDepthGuard depthGuard;
     f();
   } else {
     schedule(std::forward<F>(f), ForceQueuingTag());
@@ -648,6 +655,7 @@ inline void ThreadPool::schedule(F&& f, ForceQueuingTag) {
 template <typename F>
 inline void ThreadPool::schedule(moodycamel::ProducerToken& token, F&& f) {
   if (shouldRunInline()) {
+    detail::InlineDepthGuard depthGuard;
     f();
   } else {
     schedule(token, std::forward<F>(f), ForceQueuingTag());
@@ -663,6 +671,7 @@ template <typename F>
 DISPENSO_REQUIRES(OnceCallableFunc<F>)
 inline void ThreadPool::schedulePlaced(F&& f) {
   if (shouldRunInline()) {
+    detail::InlineDepthGuard depthGuard;
     f();
   } else {
     schedulePlaced(std::forward<F>(f), ForceQueuingTag());
@@ -680,6 +689,7 @@ inline void ThreadPool::schedulePlaced(F&& f, ForceQueuingTag) {
 template <typename F>
 inline void ThreadPool::schedulePlaced(moodycamel::ProducerToken& token, F&& f) {
   if (shouldRunInline()) {
+    detail::InlineDepthGuard depthGuard;
     f();
   } else {
     schedulePlaced(token, std::forward<F>(f), ForceQueuingTag());
@@ -1092,7 +1102,8 @@ void ThreadPool::scheduleBulkImpl(size_t count, Generator&& gen) {
   while (i < count) {
     ssize_t curWork = workRemaining_.load(std::memory_order_relaxed);
     ssize_t loadFactor = poolLoadFactor_.load(std::memory_order_relaxed);
-    if (curWork > loadFactor) {
+    if (curWork > loadFactor && detail::PerPoolPerThreadInfo::canInlineSchedule()) {
+      detail::InlineDepthGuard depthGuard;
       gen(i)();
       ++i;
     } else {
